@@ -17,6 +17,44 @@ def splitPackets : Nat → Bytes → List Bytes
     let k := if n == 0 then 64 else n.toNat
     rest.take k :: splitPackets fuel (rest.drop k)
 
+mutual
+  /-- constructs on which ciborium's `Value` / coset's `CoseKey::from_cbor_value` have rules of their own that the
+  CBOR reader of the model does not reproduce: text that is not UTF-8, simple values other than false / true /
+  null, tags -/
+  partial def exotic : Cbor.Item → Bool
+    | .text b => (String.fromUTF8? (ByteArray.mk b.toArray)).isNone
+    | .simple v => !(v == 20 || v == 21 || v == 22)
+    | .tag _ _ => true
+    | .array xs => xs.any exotic
+    | .map kvs => kvs.any (fun kv => exotic kv.1 || exotic kv.2)
+    | _ => false
+end
+
+/-- a COSE key in the plain shape the model's `validKey` stands for: integer labels, scalar values -/
+def plainKey (x : Cbor.Item) : Bool :=
+  match x with
+  | .map kvs => kvs.all (fun kv => (match kv.1 with | .uint _ => true | .nint _ => true | _ => false)
+      && (match kv.2 with | .uint _ => true | .nint _ => true | .bytes _ => true | _ => false))
+      && (kvs.map (·.1)).eraseDups.length == kvs.length
+  | _ => false
+
+/-- is the authenticator-data input inside the region where the third-party CBOR / COSE rules are modelled? -/
+def authDataModelled (input : Bytes) (modelOk : Bool) : Bool :=
+  let body := input.drop 37
+  if !modelOk then
+    -- indefinite-length heads are accepted by ciborium and refused by the model's reader
+    !body.any (fun b => b == 0x5f || b == 0x7f || b == 0x9f || b == 0xbf)
+  else
+    let flags := input.getD 32 0
+    let (keyOk, rest) : Bool × Bytes :=
+      if flags &&& 0x40 != 0 then
+        let l := (body.getD 16 0).toNat * 256 + (body.getD 17 0).toNat
+        match Cbor.decode1 (body.drop (18 + l)) with
+        | some (k, r) => (plainKey k, r)
+        | none => (false, [])
+      else (true, body)
+    keyOk && (if flags &&& 0x80 != 0 then (match Cbor.decode1 rest with | some (x, _) => !exotic x | none => false) else true)
+
 /-- model outcome class, if the decoder is modelled: "ok" | "err" | "panic" -/
 def modelClass (name : String) (input : Bytes) : Option String :=
   if name = "u2f.request" then
@@ -25,9 +63,10 @@ def modelClass (name : String) (input : Bytes) : Option String :=
       | .panic => "panic"
       | _ => "ok")
   else if name = "authData" then
-    some (match PasskeyVerif.AuthData.AuthData.fromSlice Driver.AuthData.skip Driver.AuthData.validKey input with
-      | Except.ok _ => "ok"
-      | Except.error _ => "err")
+    let ok := match PasskeyVerif.AuthData.AuthData.fromSlice Driver.AuthData.skip Driver.AuthData.validKey input with
+      | Except.ok _ => true
+      | Except.error _ => false
+    if authDataModelled input ok then some (if ok then "ok" else "err") else none
   else if name = "hid.packets" then
     let outs := (Hid.feed Hid.Table.empty (splitPackets (input.length + 1) input)).2
     some (if outs.any Option.isSome then "ok" else "err")
